@@ -111,8 +111,16 @@ def run(check):
         if starts:
             check.sample({"case": cid, "shape": g["shape"], "edges": es[:6], "gated": gates_of.get(cid), "first_exec_start": starts[0]}, limit=3)
 
+    def monitor(case, res, sem):
+        vs = mon.monitor_run(case, res, sem)
+        run = (res.get("runs") or [{}])[0]
+        # a stage input (or output) evaluated before its data exists shows up as an evaluation error of the run
+        if "cannot resolve expressions" in (run.get("err") or "") and sem.result()["avail"] and not sem.result()["fault"]:
+            vs.append(mon.V("C02", "input@evaluated-before-production", "expressions were evaluated before the data they refer to had been produced: %s" % run["err"][:300]))
+        return vs
+
     with harness.Runner() as rn:
-        runfam.run_and_monitor(check, rn, items, {"C02"}, on_result=on_result)
+        runfam.run_and_monitor(check, rn, items, {"C02"}, on_result=on_result, monitor=monitor)
     check.extra.update(stats)
     check.extra["distinct_plugin_event_orders"] = len(orders)
     if stats["consumer_first_observed"] == 0:
